@@ -317,8 +317,11 @@ func ParseField(v reflect.Value, bytes []byte, params fieldParameters) error {
 
 		sliceLen := len(valArray)
 		newSlice := reflect.MakeSlice(sliceType, sliceLen, sliceLen)
+		// the elements are encoded without the tag of the list itself (see makeField)
+		elemParams := params
+		elemParams.tagNumber = nil
 		for i := 0; i < sliceLen; i++ {
-			errParse := ParseField(newSlice.Index(i), valArray[i], params)
+			errParse := ParseField(newSlice.Index(i), valArray[i], elemParams)
 			if errParse != nil {
 				return errParse
 			}
